@@ -150,6 +150,16 @@ Lemma bucketLeapArray_ResetBucketTo_ok st :
   bucketLeapArray_ResetBucketTo st = (1, [act0 1; (2, [LZ st])]).
 Proof. reflexivity. Qed.
 
+(* the parameters are positional: pin their NAMES (the struct fields / reads the Go code uses in
+   each position), so that reading another field of the same type in the same place is noticed *)
+Section ParamNames.
+Import Coq.Strings.String.
+Local Open Scope string_scope.
+Local Open Scope list_scope.
+Lemma leapArray_currentBucketOfTime_step_params : LeafParams.leapArray_currentBucketOfTime_step = "array_length" :: "cas_ok" :: "la_bucketLengthInMs" :: "la_sampleCount" :: "lock_ok" :: "now" :: "old_nil" :: "ws_1" :: "ws_2" :: "ws_3" :: nil.
+Proof. reflexivity. Qed.
+End ParamNames.
+
 Print Assumptions leapArray_currentBucketOfTime_step_ok.
 Print Assumptions pc_begin.
 Print Assumptions pc_load1.
